@@ -167,7 +167,7 @@ def enc_defaults(defaults):
 def observe(e):
     """the implementation's state in the vocabulary of Model.Wire.sx_of_est"""
     rules = sorted((k, '' if False else str(v)) for k, v in e.rules.items())
-    fr = sorted(e.file_rules.keys())
+    fr = sorted((k, str(v.check)) for k, v in e.file_rules.items())
     mc = None
     if e.policy_path and e.policy_path in e._file_cache and e._file_cache[e.policy_path]:
         mc = int(e._file_cache[e.policy_path].get('mtime', 0))
@@ -176,7 +176,7 @@ def observe(e):
 
 def dec_state(ans):
     rules = sorted((unS(p[0]), unS(p[1])) for p in ans[0])
-    fr = sorted(unS(x) for x in ans[1])
+    fr = sorted((unS(x[0]), unS(x[1])) for x in ans[1])
     mc = ans[3][0] if ans[3] else None
     return {'rules': rules, 'file_rules': fr, 'path_known': bool(ans[2]), 'mcache': mc}
 
